@@ -472,7 +472,11 @@ func runC01(rc *sk.RunCtx) {
 		case 0: // advance to the next interesting instant (or a little)
 			var target time.Duration
 			if mi < len(marks) && tp.Chance(3, 4) {
-				target = time.Duration(marks[mi])*time.Second + time.Duration(tp.Choose(999))*time.Millisecond
+				// (half of the time exactly on the second: "valid at t" includes the NotBefore and NotAfter instants themselves)
+				target = time.Duration(marks[mi]) * time.Second
+				if tp.Chance(1, 2) {
+					target += time.Duration(tp.Choose(999)) * time.Millisecond
+				}
 				mi++
 				// skip marks that are already behind
 				for mi < len(marks) && time.Duration(marks[mi])*time.Second <= target {
